@@ -25,6 +25,10 @@ Main entry points
                                          local_units_cycle, ...) computed directly from the graph
     random_graph(rng, ...)               larger random graphs
     twin_graphs()                        files that are (near) copies of the origin model (Model::equals in the cycle test)
+    child_order_graphs()                 2-3 children (unit references, used units, encapsulated children) in every order,
+                                         the cycle-closing edge in every position
+    random_layout / lay_out / spelled_keys   the same graph spread over sub-directories with URLs relative to the
+                                         importing file ("sub/f", "../f", "./f", "x/../f")
 """
 import itertools
 from collections import namedtuple
@@ -614,7 +618,7 @@ def enumerate_graphs(nfiles, budget, max_refs=2, names_per_kind=2, with_comps=Tr
     """Every import graph, up to renaming of files and entities, that is *reachable from the origin file*:
     the origin holds one or two root entities; every entity demanded by a root (import target, referenced
     units, used units, encapsulated child) is then either left missing or defined from the menu
-        units:  local with 0..max_refs references to units of the same file | import of (file, name)
+        units:  local with 0..max_refs references to units of the same file, in every order | import of (file, name)
         comp :  local with 0..1 used units and 0..1 encapsulated child      | import of (file, name)
     where a target file is any file introduced so far (its own file and the origin file included: self imports
     and back edges of every length) or the next new one, and a target name is any name introduced so far in
@@ -660,7 +664,7 @@ def enumerate_graphs(nfiles, budget, max_refs=2, names_per_kind=2, with_comps=Tr
         if kind == "u":
             cand = names_for(keys, f, "u")
             for k in range(0, max_refs + 1):
-                for refs in itertools.combinations(cand, k):
+                for refs in itertools.permutations(cand, k):
                     nd = dict(defs)
                     nd[d] = ("L", refs)
                     expand(roots, nd, order + [d], rest + [(f, "u", r) for r in refs], kidset, left - 1)
@@ -943,6 +947,223 @@ def twin_graphs():
                       ("origin-kids-duplicate", M(name, o_units, [o_comps[0], C("c1", None, [], [k1, k1])])),
                       ("origin-units-one-less", M(name, [o_units[0], o_units[2]], o_comps))):
         yield ("twin-" + label, {ORIGIN: o2, fname(1): link, fname(2): M(name, o_units, o_comps)})
+
+
+# ----------------------------------------------------------------------------------------------- directories
+
+DIRS = ("", "a/", "a/b/", "c/")          # directories of a laid-out graph (created in every case), depth 0-2
+_SUBDIRS = {"": ("a", "c"), "a/": ("b",), "a/b/": (), "c/": ()}
+
+
+def _file_urls(d):
+    out = set()
+    if is_model(d):
+        out |= {u[2] for u in d[2] if u[0] == "I"}
+        out |= {c[2][0] for c in all_comps(d) if c[2] is not None}
+    return out
+
+
+def _sccs(files):
+    """strongly connected components of the file-level import graph: dict file -> representative"""
+    names = set(files)
+    for d in files.values():
+        names |= _file_urls(d)
+    graph = {f: (_file_urls(files.get(f)) if f in files else set()) for f in names}
+    reach = {}
+    for f in names:
+        seen, todo = set(), [f]
+        while todo:
+            x = todo.pop()
+            for y in graph[x]:
+                if y not in seen:
+                    seen.add(y)
+                    todo.append(y)
+        reach[f] = seen
+    rep = {}
+    for f in sorted(names):
+        rep[f] = min([g for g in names if g == f or (g in reach[f] and f in reach[g])])
+    return rep
+
+
+def random_layout(files, rng, origin=ORIGIN):
+    """a directory (one of DIRS) for every file name that occurs (as a file or as an import URL).  The origin stays
+    in the top directory (the base path given to resolveImports); files that import from each other in a circle
+    share a directory (the code does not normalise "..": a cycle through ".." spellings would produce ever longer
+    library keys)."""
+    rep = _sccs(files)
+    dir_of_rep = {}
+    out = {}
+    for f in sorted(rep):
+        r = rep[f]
+        if r not in dir_of_rep:
+            dir_of_rep[r] = "" if rep.get(origin) == r else rng.choice(DIRS)
+        out[f] = dir_of_rep[r]
+    out[origin] = ""
+    return out
+
+
+def random_styles(files, rng):
+    """a `styles` callable for lay_out: random spellings, except that imports inside a circle of files (and self
+    imports) are written the shortest way (any other spelling would make the un-normalised keys grow for ever)"""
+    rep = _sccs(files)
+    memo = {}
+
+    def styles(importer, url, i):
+        if rep.get(importer) == rep.get(url):
+            return 0
+        if (importer, url, i) not in memo:
+            memo[(importer, url, i)] = rng.choice([0, 0, 1, 2])
+        return memo[(importer, url, i)]
+    return styles
+
+
+def relative_url(from_dir, to_dir, name, style=0):
+    """the URL text that reaches to_dir + name from a file in from_dir.  style 0: shortest ("sub/f", "../f");
+    1: "./" in front; 2: a detour through an existing sub-directory of from_dir ("x/../…") when there is one."""
+    a = [x for x in from_dir.split("/") if x]
+    b = [x for x in to_dir.split("/") if x]
+    i = 0
+    while i < len(a) and i < len(b) and a[i] == b[i]:
+        i += 1
+    url = "../" * (len(a) - i) + "".join(x + "/" for x in b[i:]) + name
+    if style == 1:
+        return "./" + url
+    if style == 2 and _SUBDIRS.get(from_dir):
+        return _SUBDIRS[from_dir][0] + "/../" + url
+    return url
+
+
+def lay_out(files, dirs, styles=None):
+    """files of a flat graph -> files of the same graph spread over directories: dict real path -> doc, every import
+    URL rewritten relative to the directory of the importing file.  styles: callable (importer, url, occurrence
+    index) -> 0 | 1 | 2 choosing the spelling (see relative_url); default: shortest."""
+    out = {}
+    for f, d in files.items():
+        fd = dirs.get(f, "")
+        if not is_model(d):
+            out[fd + f] = d
+            continue
+        n = [0]
+
+        def rw(url):
+            st = styles(f, url, n[0]) if styles else 0
+            n[0] += 1
+            return relative_url(fd, dirs.get(url, fd), url, st)
+
+        def rwc(c):
+            imp = None if c[2] is None else (rw(c[2][0]), c[2][1])
+            return C(c[1], imp, c[3], [rwc(k) for k in c[4]])
+        units = [UI(u[1], rw(u[2]), u[3]) if u[0] == "I" else u for u in d[2]]
+        out[fd + f] = M(d[1], units, [rwc(c) for c in d[3]], d[4])
+    return out
+
+
+def _normpath(p):
+    parts = []
+    for x in p.split("/"):
+        if x in ("", "."):
+            continue
+        if x == "..":
+            if not parts:
+                return None               # above the case directory
+            parts.pop()
+        else:
+            parts.append(x)
+    return "/".join(parts)
+
+
+def spelled_keys(laid, origin=ORIGIN, cap=120):
+    """Library keys as the importer spells them (base directory of the importing file + URL as written, never
+    normalised) for everything reachable from the origin, each with the real path the OS resolves it to:
+    dict spelled key -> real path (which may or may not be a file of `laid`).  None when more than `cap` keys arise
+    (a cycle through non-normalised spellings)."""
+    keys = {origin: origin}
+    todo = [origin]
+    while todo:
+        k = todo.pop()
+        real = keys[k]
+        d = laid.get(real) if real is not None else None
+        base = k[:k.rfind("/") + 1]
+        for url in sorted(_file_urls(d)):
+            k2 = base + url
+            if k2 not in keys:
+                keys[k2] = _normpath(k2)
+                todo.append(k2)
+                if len(keys) > cap:
+                    return None
+    return keys
+
+
+def child_order_graphs():
+    """Graphs whose point is the ORDER of several children.  (1) the target of an imported units is a local units with
+    2-3 unit children in every order, each child a local leaf, an imported units that is fine, an imported units that
+    closes a cycle back to the importing file (through one or two files), or a missing name -- so the cycle-closing
+    edge sits in every position, before and after other imported children.  (2) the same for a component: 2-3 units
+    used by its variables, and 2-3 encapsulated children (local / imported / imported closing a cycle), in every
+    order.  Yields (label, files)."""
+    f0, f1, f2, f3 = fname(0), fname(1), fname(2), fname(3)
+    leaf = M(mname(f2), [UL("v")], [C("k", None, [])])
+    kinds = ("L", "I", "Y1", "Y2", "N")          # local leaf, import ok, cycle (1 hop), cycle (2 hops), missing
+    for n in (2, 3):
+        for combo in itertools.product(kinds, repeat=n):
+            if sum(1 for k in combo if k in ("Y1", "Y2")) > 1 or all(k == "L" for k in combo):
+                continue
+            if n == 3 and not any(k in ("Y1", "Y2") for k in combo):
+                continue
+            label = "".join(k[0] + (k[1:] if len(k) > 1 else "") for k in combo)
+            units, refs = [], []
+            for i, k in enumerate(combo):
+                nm = "x%d" % i
+                refs.append(nm)
+                if k == "L":
+                    units.append(UL(nm))
+                elif k == "I":
+                    units.append(UI(nm, f2, "v"))
+                elif k == "Y1":
+                    units.append(UI(nm, f1, "u"))            # the file imports its own units u: u -> child -> u
+                elif k == "Y2":
+                    units.append(UI(nm, f3, "w"))            # f3.w imports f1.u
+                # "N": the name is referenced but not defined
+            back = M(mname(f3), [UI("w", f1, "u")], [])
+            # (1) units
+            files = {f0: M(mname(f0), [UI("u", f1, "u")], []),
+                     f1: M(mname(f1), [UL("u", *refs)] + units, []), f2: leaf, f3: back}
+            yield ("order-units-" + label, files)
+            # (2) component: the children are the units used by the variables of the imported component
+            cunits = []
+            for i, k in enumerate(combo):
+                nm = "x%d" % i
+                if k == "L":
+                    cunits.append(UL(nm))
+                elif k == "I":
+                    cunits.append(UI(nm, f2, "v"))
+                elif k == "Y1":
+                    cunits.append(UI(nm, f1, "y"))
+                elif k == "Y2":
+                    cunits.append(UI(nm, f3, "w"))
+            ycyc = [UI("y", f1, "y")] if "Y1" in combo else []       # a self-importing units of f1
+            back2 = M(mname(f3), [UI("w", f3, "w")], [])
+            files = {f0: M(mname(f0), [], [C("c", (f1, "c"))]),
+                     f1: M(mname(f1), cunits + ycyc, [C("c", None, refs)]), f2: leaf, f3: back2}
+            yield ("order-used-" + label, files)
+            # (3) encapsulated children of the imported component
+            kids = []
+            for i, k in enumerate(combo):
+                nm = "k%d" % i
+                if k == "L":
+                    kids.append(C(nm, None, []))
+                elif k == "I":
+                    kids.append(C(nm, (f2, "k")))
+                elif k == "Y1":
+                    kids.append(C(nm, (f1, "c")))            # a child importing its own parent
+                elif k == "Y2":
+                    kids.append(C(nm, (f3, "d")))            # f3.d imports f1.c
+                else:
+                    kids.append(C(nm, (f2, "nope")))
+            back3 = M(mname(f3), [], [C("d", (f1, "c"))])
+            files = {f0: M(mname(f0), [], [C("c", (f1, "c"))]),
+                     f1: M(mname(f1), [], [C("c", None, [], kids)]), f2: leaf, f3: back3}
+            yield ("order-kids-" + label, files)
 
 
 def _add_kid(parent, kid, rng):
